@@ -424,6 +424,49 @@ class Alg:
             return mag > 0 and abs(v) > 1e-7 * mag
         return False
 
+    def transfer(self, a, B, amap, on_div=None):
+        """Re-evaluate a normal form in another algebra B (same interface): atoms in `amap` take
+        the given B-values, structured atoms (sin/cos/sqrt/reciprocal) are rebuilt from their
+        arguments; any other atom raises ValueError.  `on_div(d)` sees every divisor."""
+        iv = getattr(self, 'inv_of', {})
+        memo = {}
+
+        def poly(p):
+            tot = B.const(0)
+            for m, c in p.t.items():
+                t = B.const(c)
+                for at, pw in m:
+                    t = B.mul(t, B.powi(atom(at), pw))
+                tot = B.add(tot, t)
+            return tot
+
+        def atom(at):
+            if at in memo:
+                return memo[at]
+            if at in amap:
+                v = amap[at]
+            elif at in self.sin_arg:
+                v = B.sin(poly(self.sin_arg[at].n))
+            elif at in self.cos_arg:
+                v = B.cos(poly(self.cos_arg[at].n))
+            elif at in self.sqrt_of:
+                v = B.sqrt(poly(self.sqrt_of[at]))
+            elif at in iv:
+                d = poly(iv[at])
+                if on_div:
+                    on_div(d)
+                v = B.div(B.const(1), d)
+            elif at.startswith('inv(') and at in self.inverse:
+                d = atom(self.inverse[at])
+                if on_div:
+                    on_div(d)
+                v = B.div(B.const(1), d)
+            else:
+                raise ValueError('atom %s has no image in the target algebra' % at)
+            memo[at] = v
+            return v
+        return poly(a.n)
+
     def is_const(self, a):
         return a.n.is_const()
 
